@@ -223,6 +223,21 @@ theorem code_membership_row (labels : List String) (m : Tens Float) (k : Nat) (h
   rw [(writeMembershipCode_eq labels m 0.0 0).1]
   simp [writeMembership, hk]
 
+
+/-- **the info file as the code writes it**: line 3 is `# Seed = <seed>`, and line `5 + i` is realization `i` with its number
+of iterations, its termination reason and its likelihood -/
+theorem code_info_rows (r : Nat) (maxL2 : Float) (seed : Int) (iters : List Nat) (reasons : List String)
+    (L2s : List Float) (i : Nat) (hi : i < iters.length) :
+    (writeInfoCode r maxL2 seed iters.length iters reasons L2s ⟨[], [], 0⟩).lines[3]?
+      = some [Tok.s "#", Tok.s "Seed", Tok.s "=", Tok.s (toString seed)]
+    ∧ (writeInfoCode r maxL2 seed iters.length iters reasons L2s ⟨[], [], 0⟩).lines[5 + i]?
+      = some [Tok.n i, Tok.n (iters.getD i 0), Tok.s (reasons.getD i "?"), Tok.f (L2s.getD i 0.0)] := by
+  rw [(writeInfoCode_eq r maxL2 seed iters reasons L2s).1]
+  refine ⟨by simp [writeInfo], ?_⟩
+  unfold writeInfo
+  rw [List.getElem?_append_right (by simp)]
+  simp [hi]
+
 /-! ### non-vacuity: a concrete file -/
 
 example : (writeInfoCode 2 1.5 7 2 [3, 4] ["a", "b"] [1.0, 1.5] ⟨[], [], 0⟩).lines.length = 7 := by
